@@ -23,15 +23,11 @@ func c12Jobs(o Options) []Job {
 			if neg {
 				count = 2
 			}
-			seen := map[int]bool{}
-			for _, n := range []int{0, w*count - w, w*count - 1, w * count, w*count + 1, w*count + w} {
-				if n < 0 || seen[n] {
-					continue
-				}
-				seen[n] = true
+			// every payload length from nothing to one element too many
+			for n := 0; n <= w*count+w; n++ {
 				jobs = append(jobs, Job{Harness: "onnx.H_C12", Case: map[string]interface{}{"dtype": dt, "enc": "raw", "dims": dims, "n": n}})
 			}
-			seen = map[int]bool{}
+			seen := map[int]bool{}
 			for _, n := range []int{count - 1, count, count + 1} {
 				if n <= 0 || seen[n] {
 					continue
@@ -61,7 +57,7 @@ func init() {
 			Bounds: []string{
 				"11 element types x {raw little-endian bytes, typed repeated field}",
 				"declared dims: rank 0..2 (thorough 0..4) with element count <= 4, plus negative dims",
-				"payload length: every one of {0, expected-1 element, expected-1 byte, expected, expected+1 byte, expected+1 element}; every byte / typed element symbolic (all bit patterns)",
+				"raw payload length: EVERY byte length from 0 to expected + one element; typed payload length: expected-1, expected, expected+1 elements; every byte / typed element symbolic (all bit patterns)",
 				"GraphProto.Params with three initializers sharing one symbolic payload under different dims / element types",
 				"other data_type codes: one symbolic int32 constrained only to differ from the 11 supported codes, with each typed field / raw populated or not",
 			},
